@@ -1,0 +1,14 @@
+//go:build verif
+
+package rest
+
+// Contracts for property C19 (document bodies come back exactly as written): the decoder of REST request
+// bodies (single and bulk document writes) runs in number mode. Comment-only; read by /verif/engine.
+
+//@ props C19
+
+// Large integers in a request body survive as json.Number: the decoder is switched to number mode before it
+// decodes (removing the UseNumber call fails the assertion).
+//@ func ReadJSONFromMIMERawErr
+//@   modifies *
+//@   before[number-mode] call Decode#1 $0 in c19NumberMode
